@@ -100,6 +100,15 @@ class TruncationTransformer(_PanelToPanelTransformer):
         else:
             idxs = np.arange(self.lower_, self.upper)
 
-        truncate = [pd.Series([series.iloc[idxs] for series in out]) for out in arr]
+        # cells may be pd.Series or np.ndarray
+        truncate = [
+            pd.Series(
+                [
+                    series.iloc[idxs] if hasattr(series, "iloc") else series[idxs]
+                    for series in out
+                ]
+            )
+            for out in arr
+        ]
 
         return pd.DataFrame(truncate)
